@@ -208,6 +208,26 @@ class ReadStand:
             self.sock.fin = True
         self.events.append({"a": "Cut", "kind": kind})
 
+    def reconnect(self):
+        """the client object connects again after its connection was lost: a fresh socket, the real CONNECT / ACKNOWLEDGE handshake"""
+        c = self.c
+        if c.connected:
+            return
+        self.sock = ScriptSock(self.sock.chunk)
+        c._sock = self.sock
+        c._connected = True                      # what _socket_connect() does once the TCP connection stands
+        ack = F.build_header(self.timecode, 2, 0, 10, 0, 0, count=1, version=0, send_time=1.0, shost=0)
+        self.sock.inbuf += ack
+        try:
+            c._connect_helper(False, False, False)
+        except Exception as e:   # noqa: BLE001
+            self.events.append({"a": "ReconnectFailed", "exc": type(e).__name__})
+            return
+        self.sock.consumed = 0
+        self.sock.inbuf.clear()
+        self.bounds, self.total, self.partial_last = [], 0, False
+        self.events.append({"a": "Reconnect"})
+
     def sub(self, op: str, t: int):
         c = self.c
         try:
